@@ -14,7 +14,7 @@ spec = {"argv": ["-r", name, "-s", sess, ...],      command line of pcfg_guesser
 Prints one line  @@RESULT@@<json>  with {"out": [guesses handed to print_guess, in order], "pops": [[pt, prob], ...],
 "error": str|null, "stray_stdout": text on stdout that is not one of those guesses, "lost_stdout": guesses handed to print_guess
 that never reached stdout by the time main() had returned and the exit handlers had run (print_guess itself is NOT replaced:
-the original runs and writes to the captured sys.stdout, so a buffer the program forgets to flush shows)}.
+the original runs and writes to the captured sys.stdout, so a buffer the program forgets to flush shows)}. "pop_at": [number of guesses handed out before the i-th pop].
 The save file is written where main() puts it (beside the copy's pcfg_guesser.py), rulesets are read from
 <code_dir>/Rules - which is why this runs on a copy of the tree and never on /repo itself."""
 import io
@@ -35,7 +35,7 @@ def main():
         import lib_guesser.cracking_session as cs
         from lib_guesser.pcfg_grammar import PcfgGrammar
         from lib_guesser.priority_queue import PcfgQueue
-    res = {"out": [], "pops": [], "error": None}
+    res = {"out": [], "pops": [], "pop_at": [], "error": None}
     qg, qp, cap = spec.get("quit_after_guesses"), spec.get("quit_after_pops"), spec.get("cap", 200000)
     grammars = []
 
@@ -59,6 +59,7 @@ def main():
             it = PcfgQueue.next(self)
             if it is not None:
                 res["pops"].append([[list(x) for x in it["pt"]], it["prob"]])
+                res["pop_at"].append(len(res["out"]))
                 if qp is not None and len(res["pops"]) == qp:
                     self.pcfg.should_exit = True
             return it
